@@ -48,7 +48,10 @@ var propTable = map[string]propInfo{
 			"#vote-replies-deferred on the handlers, appendEntry, becomeLeader and Step); a stale-term MsgStorageAppendResp does not stabilise entries " +
 			"(Step#stale-term-ignored); stableTo drops exactly the acknowledged prefix and only on an (index, term) match. At the API layer RawNode.readyWithoutAccept hands out the whole not-in-progress unstable " +
 			"tail, the hard state exactly when it differs from the last one handed out, MustSync per its definition, and (sync mode) the immediate messages first; HasReady is true " +
-			"whenever the hard state changed. acceptReady/Advance (when the deferred messages are released) are not under contract yet: the crash-recovery half is not decided here.",
+			"whenever the hard state changed. acceptReady " +
+			"hands both outboxes over (they are empty afterwards), in sync mode keeps only self-addressed deferred messages (plus the two storage acknowledgements) for Advance, marks the " +
+			"unstable tail in progress and remembers the emitted hard state; Ready = readyWithoutAccept; acceptReady is verified as a composition. Advance (which steps the kept " +
+			"messages) and the crash model itself are not under contract: the crash-recovery half is not decided here.",
 	},
 	"C06": {
 		Level: "proof",
@@ -65,13 +68,13 @@ var propTable = map[string]propInfo{
 			"postcondition of every function from raft.Step and tickElection down that can write the hard state (become*, reset, campaign, hup, the handlers, restore, " +
 			"commitTo, maybeCommit, appliedTo, the three step functions); Step adds the exact term rule (#term-rule), #prevote-changes-nothing and #stale-term-ignored. " +
 			"RawNode.readyWithoutAccept emits the hard state exactly when it differs from the previous one and " +
-			"HasReady reports every such change. Not under contract (assumed): appliedSnap, switchToConfig, tickHeartbeat, acceptReady's update of prevHardSt.",
+			"HasReady reports every such change. acceptReady remembers it (prevHardSt). Not under contract (assumed): appliedSnap, switchToConfig, tickHeartbeat, Advance.",
 	},
 	"C08": {
 		Level: "proof",
 		Explanation: commonMethod + "log.go level: nextCommittedEnts returns exactly the window (applying, maxAppliable] cut by the size budget (non-empty maximal prefix), " +
 			"acceptApplying / appliedTo move the cursors monotonically with applied <= applying <= committed as representation invariant and the size accounting exact; " +
-			"raft.appliedTo never moves applied backwards (max) and stays within commit. RawNode's hand-over of the window is not under contract yet.",
+			"raft.appliedTo never moves applied backwards (max) and stays within commit. RawNode.readyWithoutAccept hands out a batch that ends within (applying, committed] and acceptReady moves the applying cursor to exactly its last index.",
 	},
 	"C09": {
 		Level: "other",
